@@ -155,3 +155,167 @@ Proof.
   destruct (unmarshal_ranges w') as [[i e]|w''] eqn:E; [discriminate|].
   intros Hw; injection Hw as <-. apply unmarshal_accepts_only_valid in E. tauto.
 Qed.
+
+(** * Canonical-order documents, whatever the texts *)
+
+(** The decoders on a document in canonical order amount to parsing day by
+    day (first syntax error wins) and then validating. *)
+Fixpoint parse_days (parse : bytes -> Z + Z) (days : list text_day) : Z + list day_range :=
+  match days with
+  | [] => inr []
+  | None :: days =>
+      match parse_days parse days with
+      | inl c => inl c
+      | inr rs => inr (zero_range :: rs)
+      end
+  | Some (s, e) :: days =>
+      match parse s with
+      | inl c => inl c
+      | inr a =>
+        match parse e with
+        | inl c => inl c
+        | inr b =>
+          match parse_days parse days with
+          | inl c => inl c
+          | inr rs => inr ({| dr_start := a; dr_end := b |} :: rs)
+          end
+        end
+      end
+  end.
+
+Lemma apply_fields_flatten parse days :
+  forall pre,
+    apply_fields parse (pre ++ repeat zero_range (length days))
+      (flatten_days (length pre) days)
+    = match parse_days parse days with
+      | inl c => inl c
+      | inr rs => inr (pre ++ rs)
+      end.
+Proof.
+  induction days as [|d days IH]; intros pre.
+  - cbn. reflexivity.
+  - assert (Hstep : forall r,
+      apply_fields parse (pre ++ r :: repeat zero_range (length days))
+        (flatten_days (S (length pre)) days)
+      = match parse_days parse days with
+        | inl c => inl c
+        | inr rs => inr (pre ++ r :: rs)
+        end).
+    { intros r. specialize (IH (pre ++ [r])).
+      rewrite app_length in IH. cbn [length] in IH. rewrite Nat.add_1_r in IH.
+      rewrite <- !app_assoc in IH. cbn [app] in IH. rewrite IH.
+      destruct (parse_days parse days); [reflexivity|].
+      rewrite <- app_assoc. reflexivity. }
+    cbn [length repeat]. destruct d as [[s e]|].
+    + cbn [flatten_days apply_fields parse_days].
+      destruct (parse s) as [c|a]; [reflexivity|].
+      rewrite upd_app_length.
+      destruct (parse e) as [c|b]; [reflexivity|].
+      rewrite upd_app_length.
+      unfold set_field; cbn [dr_start dr_end zero_range].
+      rewrite Hstep. destruct (parse_days parse days); reflexivity.
+    + cbn [flatten_days parse_days]. rewrite Hstep.
+      destruct (parse_days parse days); reflexivity.
+Qed.
+
+Lemma unmarshal_days_spec parse days :
+  unmarshal_fields parse (length days) (flatten_days 0 days)
+  = match parse_days parse days with
+    | inl c => inl (TSyntax c)
+    | inr rs => match unmarshal_ranges rs with
+                | inl (i, e) => inl (TRange i e)
+                | inr w => inr w
+                end
+    end.
+Proof.
+  unfold unmarshal_fields.
+  pose proof (apply_fields_flatten parse days []) as H. cbn [app length] in H.
+  rewrite H. destruct (parse_days parse days); reflexivity.
+Qed.
+
+Lemma parse_days_nth parse days rs d s e a b :
+  parse_days parse days = inr rs ->
+  nth_error days d = Some (Some (s, e)) ->
+  parse s = inr a -> parse e = inr b ->
+  nth_error rs d = Some {| dr_start := a; dr_end := b |}.
+Proof.
+  revert rs d. induction days as [|x days IH]; intros rs d Hp Hn Hs He.
+  - destruct d; discriminate.
+  - destruct d as [|d]; cbn [nth_error] in Hn.
+    + injection Hn as ->. cbn [parse_days] in Hp. rewrite Hs, He in Hp.
+      destruct (parse_days parse days); [discriminate|]. injection Hp as <-. reflexivity.
+    + cbn [parse_days] in Hp. destruct x as [[s' e']|].
+      * destruct (parse s'); [discriminate|]. destruct (parse e'); [discriminate|].
+        destruct (parse_days parse days) as [|rs'] eqn:E; [discriminate|].
+        injection Hp as <-. cbn [nth_error]. eapply IH; eauto.
+      * destruct (parse_days parse days) as [|rs'] eqn:E; [discriminate|].
+        injection Hp as <-. cbn [nth_error]. eapply IH; eauto.
+Qed.
+
+(** A day whose texts read as a range that is not validated makes the
+    decoder reject the document, whatever the other days say. *)
+Lemma text_day_rejected parse days d s e a b :
+  nth_error days d = Some (Some (s, e)) ->
+  parse s = inr a -> parse e = inr b ->
+  ~ range_ok {| dr_start := a; dr_end := b |} ->
+  exists err, unmarshal_fields parse (length days) (flatten_days 0 days) = inl err.
+Proof.
+  intros Hn Hs He Hbad. rewrite unmarshal_days_spec.
+  destruct (parse_days parse days) as [c|rs] eqn:E; [eauto|].
+  pose proof (parse_days_nth parse days rs d s e a b E Hn Hs He) as Hr.
+  destruct (unmarshal_rejects_invalid rs) as [[i er] Hrej].
+  - intros Hok. apply Hbad. eapply Forall_forall; [exact Hok|].
+    eapply nth_error_In; exact Hr.
+  - rewrite Hrej. eauto.
+Qed.
+
+(** JSON: the value of a number text is the exact decimal (nothing is cut
+    before the scaling to nanoseconds); a bound that is not a whole number of
+    minutes, e.g. by a fraction of a millisecond, is rejected. *)
+Lemma json_fraction_rejected days d s e vs ve :
+  nth_error days d = Some (Some (s, e)) ->
+  parse_ms_text s = Some vs -> parse_ms_text e = Some ve ->
+  vs mod ns_min <> 0 \/ ve mod ns_min <> 0 ->
+  exists err, unmarshal_json_text days = inl err.
+Proof.
+  intros Hn Hs He Hbad. unfold unmarshal_json_text.
+  eapply text_day_rejected with (a := vs) (b := ve); eauto.
+  - unfold parse_json_dur. rewrite Hs. reflexivity.
+  - unfold parse_json_dur. rewrite He. reflexivity.
+  - unfold range_ok; cbn [dr_start dr_end]. intros [[-> ->]|H].
+    + cbn in Hbad. destruct Hbad as [H|H]; apply H; reflexivity.
+    + tauto.
+Qed.
+
+Lemma yaml_fraction_rejected days d s e vs ve :
+  nth_error days d = Some (Some (s, e)) ->
+  parse_duration s = inr vs -> parse_duration e = inr ve ->
+  vs mod ns_min <> 0 \/ ve mod ns_min <> 0 ->
+  exists err, unmarshal_yaml_text days = inl err.
+Proof.
+  intros Hn Hs He Hbad. unfold unmarshal_yaml_text.
+  eapply text_day_rejected with (a := vs) (b := ve); eauto.
+  - unfold parse_yaml_dur. rewrite Hs. reflexivity.
+  - unfold parse_yaml_dur. rewrite He. reflexivity.
+  - unfold range_ok; cbn [dr_start dr_end]. intros [[-> ->]|H].
+    + cbn in Hbad. destruct Hbad as [H|H]; apply H; reflexivity.
+    + tauto.
+Qed.
+
+(** The premises are satisfiable: 120000.5 ms is 120000500000 ns, not a
+    whole minute, and {"mon":{"start":60000,"end":120000.5}} is rejected for
+    its end (weekday 1, error 7), as is a full day longer by half a
+    millisecond (error 5: end beyond 24h). *)
+Definition txt_60000 : bytes := [54; 48; 48; 48; 48]%N.
+Definition txt_120000_5 : bytes := [49; 50; 48; 48; 48; 48; 46; 53]%N.
+Definition txt_0 : bytes := [48]%N.
+Definition txt_86400000_5 : bytes := [56; 54; 52; 48; 48; 48; 48; 48; 46; 53]%N.
+
+Lemma json_fraction_examples :
+  parse_ms_text txt_120000_5 = Some 120000500000 /\
+  120000500000 mod ns_min <> 0 /\
+  unmarshal_json_text [None; Some (txt_60000, txt_120000_5); None; None; None; None; None]
+    = inl (TRange 1 EEndNotMin) /\
+  unmarshal_json_text [Some (txt_0, txt_86400000_5); None; None; None; None; None; None]
+    = inl (TRange 0 EEndGtMax).
+Proof. vm_compute. repeat split; discriminate. Qed.
